@@ -30,7 +30,7 @@ def strategy(tier):
 
 
 def n_random(tier):
-    return 2000 if tier == "quick" else 100000
+    return 2000 if tier == "quick" else 12000
 
 
 class _Timeout(Exception):
